@@ -6,8 +6,11 @@ cd $D || exit 2
 export CARGO_NET_OFFLINE=true
 {
 echo "== $ID: confirming in $D at $(date -u +%FT%TZ)"
-git diff -- src > /tmp/confirm_$ID.diff
-if ! diff -q /tmp/confirm_$ID.diff /verif/seeded/$ID/patch.diff >/dev/null; then echo "NOTE: working tree differs from patch.diff; re-applying"; git checkout -- src; git apply /verif/seeded/$ID/patch.diff || exit 3; fi
+# confirm against the tree the checks run on: /repo's current HEAD
+HEAD=$(git -C /repo rev-parse --short HEAD)
+git checkout -q -- src; git checkout -q --detach $HEAD || exit 3
+echo "base: /repo HEAD $HEAD"
+git apply /verif/seeded/$ID/patch.diff || { echo "patch does not apply to $HEAD"; exit 3; }
 mkdir -p /tmp/confirm_hold_$ID; [ -f tests/mutant_demo.rs ] && mv tests/mutant_demo.rs /tmp/confirm_hold_$ID/
 echo "-- existing suite WITH the change (default features)"
 cargo test --offline 2>&1 | grep -E '^test result|FAILED|panicked' | head -8
